@@ -118,9 +118,20 @@ func ExecuteRequest(ctx context.Context, req *thunderpb.ExecuteRequest, gqlSchem
 		}, nil
 	}, time.Hour, false)
 
-	<-done
+	// A rerunner whose context is cancelled before its first run never calls
+	// the function above, so also stop waiting when that happens.
+	select {
+	case <-done:
+	case <-ctx.Done():
+	}
 
+	// Stop waits for a run that is in flight.
 	rerunner.Stop()
+	select {
+	case <-done:
+	default:
+		return nil, ctx.Err()
+	}
 	return queryResponse, queryError
 }
 
